@@ -227,15 +227,19 @@ func (b *batch) judgeLegal(version string, raw []byte, p string, extra string) {
 		b.obs["legal_frames_with_rpc_error"]++
 	}
 	if o.Failed != nil && !carries {
-		b.bad("c02/failed-set-on-legal-frame:"+version, version, raw, extra, "payload carries no rpc-error but Failed=%v", o.Failed)
+		k := "c02/failed-set-on-legal-frame:"
+		if o.Result == want {
+			k = "c02/failed-set-without-rpc-error" + decoyClass([]byte(p)) + ":"
+		}
+		b.bad(k+version, version, raw, extra, "payload carries no rpc-error but Failed=%v", o.Failed)
 		return
 	}
 	if o.Result != want {
 		b.bad("c02/result-mismatch:"+version, version, raw, extra, "Result %q, want trimmed payload %q", clipS(o.Result), clipS(want))
 	}
 	if carries && o.Failed == nil {
-		k := "c02/failed-unset"
-		if !anyMarkerIn(raw) {
+		k := "c02/failed-unset" + errFormClass([]byte(p))
+		if !anyMarkerIn(raw) && anyMarkerIn([]byte(p)) {
 			k = "c02/failed-unset:markers-split-by-chunk-headers"
 			b.obs["frames_with_every_marker_split"]++
 		}
@@ -252,6 +256,46 @@ func (b *batch) judgeLegal(version string, raw []byte, p string, extra string) {
 			break
 		}
 	}
+}
+
+var (
+	errOpenTagRe   = regexp.MustCompile(`<(?:([\w.-]+):)?rpc-errors?(?:\s[^>]*)?>`)
+	errCloseWSRe   = regexp.MustCompile(`</(?:[\w.-]+:)?rpc-errors?\s+>`)
+	errSelfCloseRe = regexp.MustCompile(`<(?:[\w.-]+:)?rpc-errors?(?:\s[^>]*)?/>`)
+)
+
+// errFormClass is the input class of an error reply none of whose tags is one of the six literal
+// markers (<rpc-error>, </rpc-error>, <rpc-errors>, </rpc-errors>, <nc:rpc-error>, </nc:rpc-error>).
+func errFormClass(p []byte) string {
+	if anyMarkerIn(p) {
+		return ""
+	}
+	set := map[string]bool{}
+	for _, m := range errOpenTagRe.FindAllSubmatch(p, -1) {
+		if len(m[1]) > 0 {
+			set["prefix="+string(m[1])] = true
+		}
+	}
+	if errCloseWSRe.Match(p) {
+		set["close=ws"] = true
+	}
+	if errSelfCloseRe.Match(p) {
+		set["self-closing"] = true
+	}
+	var l []string
+	for k := range set {
+		l = append(l, k)
+	}
+	sort.Strings(l)
+	return ":no-literal-marker:" + strings.Join(l, ",")
+}
+
+// decoyClass: a payload without rpc-error element that holds a literal marker (CDATA / comment).
+func decoyClass(p []byte) string {
+	if _, wf := xmlErrorElements(p); wf && anyMarkerIn(p) {
+		return ":literal-marker-in-cdata-or-comment"
+	}
+	return ""
 }
 
 var chunkHeaderRe = regexp.MustCompile(`\n#\d+\n`)
@@ -509,6 +553,71 @@ func runMut(seed int64, n int) mon.Result {
 	b.obs["mutants_accepted_by_reference"] = acc
 	b.obs["mutants_rejected_by_reference"] = rej
 	return b.result(acc > 0 && rej > 0, map[string]interface{}{"seed": seed, "mutants": b.obs["mutated_frames"], "accepted": acc, "rejected": rej})
+}
+
+// ---- rpc-error lexical forms, enumerated ---------------------------------------------------------------
+
+// runErrForms enumerates every opening form x prefix x closing form of an rpc-error element (one and
+// two per reply) plus the decoys, in 1.0 framing and in 1.1 framing as one chunk, 7-byte chunks and
+// 1-byte chunks.
+func runErrForms() mon.Result {
+	r := rand.New(rand.NewSource(7))
+	b := newBatch()
+	judge := func(p, variant string) {
+		b.tags["errform="+variant] = true
+		b.obs["errform_payloads"]++
+		if n, wf := xmlErrorElements([]byte(p)); !wf {
+			b.bad("c02/harness-selfcheck", "-", []byte(p), variant, "generated error reply is not well-formed XML")
+			return
+		} else if n > 0 {
+			b.obs["errform_payloads_with_rpc_error"]++
+		}
+		raw10 := append(ncwire.EncodeEOM([]byte(p)), '\n')
+		b.judgeLegal("1.0", raw10, p, variant)
+		for _, step := range []int{0, 7, 1} {
+			var cuts []int
+			for c := step; step > 0 && c < len(p); c += step {
+				cuts = append(cuts, c)
+			}
+			b.judgeLegal("1.1", ncwire.EncodeChunked([]byte(p), ncwire.Partition(len(p), cuts)), p, fmt.Sprintf("%s chunks-of=%d", variant, step))
+		}
+	}
+	wrap := func(root string, elems ...string) string {
+		return Decl + "\n" + `<rpc-reply xmlns="` + baseNS + `" message-id="101"` + root + ">\n<ok-so-far>1</ok-so-far>\n" + strings.Join(elems, "\n") + "\n<more>2</more>\n</rpc-reply>\n"
+	}
+	seenOpen := map[string]bool{}
+	for _, o := range errOpenForms {
+		if seenOpen[o.name] {
+			continue
+		}
+		seenOpen[o.name] = true
+		for _, pfx := range []string{"", "nc", "ns0", "netconf"} {
+			for _, cw := range []string{"", " "} {
+				f := ErrForm{Prefix: pfx, Open: o.text, OpenName: o.name, CloseWS: cw, Severity: "error"}
+				if pfx != "" {
+					f.Open = strings.ReplaceAll(strings.ReplaceAll(f.Open, `xmlns="`, "xmlns:"+pfx+`="`), `xmlns='`, "xmlns:"+pfx+`='`)
+				}
+				e, need := f.Render(r, "bad value # 1")
+				root := ""
+				if need {
+					root = " xmlns:" + pfx + `="` + baseNS + `"`
+				}
+				judge(wrap(root, e), f.String())
+				f2 := f
+				f2.Severity = "warning"
+				e2, _ := f2.Render(r, "second")
+				judge(wrap(root, e, e2), "two:"+f.String())
+			}
+		}
+	}
+	for _, dcy := range decoys {
+		judge(wrap("", dcy.text), "decoy="+dcy.name)
+	}
+	for _, dcy := range literalDecoys {
+		judge(wrap("", dcy.text), "literal-decoy="+dcy.name)
+	}
+	judge(wrap("", "<rpc-error/>"), "self-closing-rpc-error")
+	return b.result(true, map[string]interface{}{"payloads": b.obs["errform_payloads"]})
 }
 
 // ---- explicit witness -----------------------------------------------------------------------------------
